@@ -50,9 +50,13 @@ type interpreter struct {
 	run     *runState              // exploration state of this run (explore.go)
 	sched   *scheduler             // goroutines of this run (sched.go)
 	syncMaps map[*value]*hashmap   // sync.Map contents by address
+	builders map[*value]*[]byte    // strings.Builder / bytes.Buffer contents by address
 	mutexes  map[*value]*vmMutex   // sync.Mutex / RWMutex state by address
 	steps   int64
+	stackPrinted bool
 }
+
+var debugStacks = os.Getenv("GOSYM_DEBUG") != ""
 
 type deferred struct {
 	fn    value
@@ -557,8 +561,21 @@ func runFrame(fr *frame) {
 			return // let interpreter crash
 		}
 		p := recover()
+		if debugStacks && !fr.i.stackPrinted {
+			if _, isTarget := p.(targetPanic); !isTarget {
+				fr.i.stackPrinted = true
+				fmt.Fprintf(os.Stderr, "VM PANIC %T %v\n", p, p)
+				for f := fr; f != nil; f = f.caller {
+					fmt.Fprintf(os.Stderr, "   in %s\n", f.fn)
+				}
+			}
+		}
 		if isVMAbort(p) {
 			panic(p)
+		}
+		if ps, ok := p.(string); ok {
+			// the interpreter core reports its own limits as string panics
+			panic(vmUnsupported("vm: " + ps))
 		}
 		fr.panicking = true
 		fr.panic = p
